@@ -205,7 +205,8 @@ def max_depth(stmts, d=1):
 
 BOOL_PATHS = [["r", "b"], ["r", "m", "b"]]
 NUM_PATHS = [["r", "n"], ["r", "m", "n"]]
-NUM_LITS = [0, 1, 2, 3, -1, 0.5, 1.5, 2.25, -0.5, -2.25, 1000, 2.0]
+# (4000000002: a serial / time stamp; the engine may hold 4000000001 - unequal numbers that are close)
+NUM_LITS = [0, 1, 2, 3, -1, 0.5, 1.5, 2.25, -0.5, -2.25, 1000, 2.0, 4000000002]
 # r.n and r.m.n are also loop limits (small integers); r.x is free: floats, negatives, large integers
 EXPR_NUM_PATHS = NUM_PATHS + [["r", "x"], ["r", "x"]]
 
